@@ -2,6 +2,7 @@ package main
 
 import (
 	"fmt"
+	"regexp"
 	"go/ast"
 	"go/token"
 	"go/types"
@@ -27,11 +28,15 @@ func (ex *Exec) monitorOf(v ssa.Value) (string, T, types.Type, bool) {
 func (ex *Exec) pkgSpec() *PkgSpec { return ex.P.specs[ex.fn.Pkg.Pkg.Path()] }
 
 func (ex *Exec) evalMonitorInv(st *State, predName string, ref T, owner types.Type) (T, error) {
+	return ex.evalMonitorPred(st, ex.entry, predName, ref, owner)
+}
+
+func (ex *Exec) evalMonitorPred(st, old *State, predName string, ref T, owner types.Type) (T, error) {
 	pd := ex.P.pred(owner.(*types.Named).Obj().Pkg(), predName)
 	if pd == nil {
-		return T{}, fmt.Errorf("monitor invariant predicate %s not found", predName)
+		return T{}, fmt.Errorf("monitor predicate %s not found", predName)
 	}
-	env := ex.specEnv(st, ex.entry, true)
+	env := ex.specEnv(st, old, true)
 	env.vars = map[string]TV{pd.Params[0]: {ref, types.NewPointer(owner)}}
 	return env.evalBool(pd.Body)
 }
@@ -45,19 +50,30 @@ func (ex *Exec) monitorRelease(st *State, key string, lockArg ssa.Value, pos tok
 	if !ok {
 		return
 	}
-	inv, ok := ps.Monitors[mname]
-	if !ok || ex.con == nil {
+	if ex.con == nil {
 		return
 	}
-	t, err := ex.evalMonitorInv(st, inv, ref, owner)
-	if err != nil {
-		ex.fail("monitor %s: %v", mname, err)
-		return
+	if rely, ok := ps.Relies[mname]; ok {
+		if snap := ex.acqSnap[mname+"@"+ref.s]; snap != nil {
+			t, err := ex.evalMonitorPred(st, snap, rely, ref, owner)
+			if err != nil {
+				ex.fail("monitor %s rely: %v", mname, err)
+			} else {
+				o := ex.vc.oblige("rely", fmt.Sprintf("rely:%s@unlock%d", ex.conName(), ex.nmon+1), st.guard, t, ex.pos(pos))
+				o.Note = rely + " guaranteed by this critical section of " + mname
+			}
+		}
 	}
 	ex.nmon++
-	// only when the write lock is held can the invariant have been broken; checked regardless
-	o := ex.vc.oblige("monitor", fmt.Sprintf("monitor:%s@unlock%d", ex.conName(), ex.nmon), st.guard, t, ex.pos(pos))
-	o.Note = inv + " at release of " + mname
+	for _, inv := range ps.Monitors[mname] {
+		t, err := ex.evalMonitorInv(st, inv, ref, owner)
+		if err != nil {
+			ex.fail("monitor %s: %v", mname, err)
+			return
+		}
+		o := ex.vc.oblige("monitor", fmt.Sprintf("monitor:%s@unlock%d#%s", ex.conName(), ex.nmon, inv), st.guard, t, ex.pos(pos))
+		o.Note = inv + " at release of " + mname
+	}
 }
 
 func (ex *Exec) monitorAcquire(st *State, key string, lockArg ssa.Value, pos token.Pos) {
@@ -91,6 +107,20 @@ func (ex *Exec) acquireMonitor(st *State, mname string, ref T, owner types.Type)
 	}
 	vc := ex.vc
 	sT := owner.Underlying().(*types.Struct)
+	before := st.clone()
+	defer func() {
+		if rely, ok := ps.Relies[mname]; ok {
+			if t, err := ex.evalMonitorPred(st, before, rely, ref, owner); err == nil {
+				vc.assume(st.guard, t)
+			} else {
+				ex.fail("monitor %s rely: %v", mname, err)
+			}
+		}
+		if ex.acqSnap == nil {
+			ex.acqSnap = map[string]*State{}
+		}
+		ex.acqSnap[mname+"@"+ref.s] = st.clone()
+	}()
 	// other threads may have run: guarded fields of this object are arbitrary (but satisfy the invariant)
 	for _, f := range fields {
 		for i := 0; i < sT.NumFields(); i++ {
@@ -118,7 +148,7 @@ func (ex *Exec) acquireMonitor(st *State, mname string, ref T, owner types.Type)
 			}
 		}
 	}
-	if inv, ok := ps.Monitors[mname]; ok {
+	for _, inv := range ps.Monitors[mname] {
 		t, err := ex.evalMonitorInv(st, inv, ref, owner)
 		if err != nil {
 			ex.fail("monitor %s: %v", mname, err)
@@ -209,10 +239,21 @@ func (ex *Exec) applyRecFunc(env *SpecEnv, rf *RecFunc, args []TV) (TV, error) {
 		for i, p := range rf.Params {
 			ps = append(ps, fmt.Sprintf("(%s %s)", p, rf.PSorts[i]))
 		}
-		body := strings.ReplaceAll(rf.Body, "@"+rf.Name, name)
-		for n := range ex.P.allRecFuncs() {
-			body = strings.ReplaceAll(body, "@"+n, "spec."+n)
+		body := rf.Body
+		all := ex.P.allRecFuncs()
+		// declare the other spec functions this one mentions first
+		for n, other := range all {
+			if n != rf.Name && regexp.MustCompile(`@`+n+`\b`).MatchString(body) && !vc.declSet["f:spec."+n] {
+				dummy := make([]TV, len(other.Params))
+				for i := range dummy {
+					dummy[i] = TV{T{"dummy", other.PSorts[i]}, nil}
+				}
+				if _, err := ex.applyRecFunc(env, other, dummy); err != nil {
+					return TV{}, err
+				}
+			}
 		}
+		body = regexp.MustCompile(`@([A-Za-z_][A-Za-z0-9_]*)`).ReplaceAllString(body, "spec.$1")
 		vc.declare("f:"+name, fmt.Sprintf("(define-fun-rec %s (%s) %s %s)", name, strings.Join(ps, " "), rf.Res, body))
 	}
 	var ts []T
